@@ -154,7 +154,7 @@ impl idlc_codegen::functions::ParameterVisitor for Invoke {
                     .iter()
                     .map(|ident| ident.to_string())
                     .collect::<Vec<String>>()
-                    .join("->");
+                    .join(".");
                 self.0.visit_output_object(
                     &idlc_mir::Ident {
                         ident: format!("{name}->{}", path),
